@@ -345,7 +345,7 @@ def _lock_plssdesc(ctx):
               detail_bad=f"new parse() keywords without a rule: {sorted(extra)}", key="LOCK|PLSSDesc.parse|table")
     ctx.attempt(_lock, fi, kw, mapping, 'PLSSDesc')
     precedence(ctx, fi)
-    ctx.floor('PLSSDesc.parse keywords', len(fi.params()), 16)
+    ctx.floor('PLSSDesc.parse keywords', len(fi.params()), 10)
     # parser keywords exist
     pp = ctx.repo.func('PLSSParser.__init__')
     unknown = set(kw) - set(pp.params())
